@@ -4,11 +4,14 @@ import (
 	"context"
 	"errors"
 	"fmt"
+	"io"
 	"sync"
 	"sync/atomic"
 	"testing"
 	"time"
 
+	"google.golang.org/grpc/codes"
+	"google.golang.org/grpc/status"
 	"google.golang.org/protobuf/proto"
 	"pgregory.net/rapid"
 
@@ -35,16 +38,18 @@ type groupCase struct {
 	Order    []int  // completion order (permutation of member indexes); ignored by One (index order is forced)
 	CtxAware []bool // member i returns ctx.Err() as soon as its context is cancelled
 	Direct   bool   // call ExecuteAll/Most/Any/One/Fast/Race instead of Execute
+	ErrKind  []int  // what a failing member's error looks like (see memberErr); missing = plain
+	Via      string // "": pkg/group directly; otherwise a trait group built on it (see traitCalls)
 }
 
 func (c groupCase) String() string {
-	return fmt.Sprintf("%s(direct=%v) ok=%v order=%v ctxAware=%v", stratName(group.ExecutionStrategy(c.Strategy)), c.Direct, c.OK, c.Order, c.CtxAware)
+	return fmt.Sprintf("%s(direct=%v via=%q) ok=%v order=%v ctxAware=%v errKind=%v", stratName(group.ExecutionStrategy(c.Strategy)), c.Direct, c.Via, c.OK, c.Order, c.CtxAware, c.ErrKind)
 }
 
 type memberLog struct {
-	invoked      atomic.Bool
-	returned     atomic.Bool
-	sawCancel    atomic.Bool // ctx was cancelled when the member returned
+	invoked       atomic.Bool
+	returned      atomic.Bool
+	sawCancel     atomic.Bool // ctx was cancelled when the member returned
 	earlyOnCancel atomic.Bool
 }
 
@@ -64,7 +69,25 @@ type expectation struct {
 	winner       int   // One/Fast/Race: index reported; -1 n/a
 }
 
-func memberErr(i int) error { return fmt.Errorf("member %d failed", i) }
+// memberErr is the error member i fails with. A failure is a failure whatever it looks like: members also fail with
+// errors that wrap (or are) cancellation and deadline errors of their own, e.g. from a downstream call.
+func (c groupCase) memberErr(i int) error {
+	kind := 0
+	if i < len(c.ErrKind) {
+		kind = c.ErrKind[i]
+	}
+	switch kind {
+	case 1:
+		return fmt.Errorf("member %d: downstream call: %w", i, context.Canceled)
+	case 2:
+		return fmt.Errorf("member %d: downstream call: %w", i, context.DeadlineExceeded)
+	case 3:
+		return status.Errorf(codes.Canceled, "member %d: downstream cancelled", i)
+	case 4:
+		return fmt.Errorf("member %d: %w", i, io.EOF)
+	}
+	return fmt.Errorf("member %d failed", i)
+}
 func memberMsg(i int) proto.Message {
 	return &testproto.ForeignMessage{C: int32(i + 1)}
 }
@@ -97,7 +120,7 @@ func contract(c groupCase) expectation {
 		}
 		if errs > allowed && n > 0 {
 			e.errIs = first
-			e.wantErr = memberErr(first)
+			e.wantErr = c.memberErr(first)
 		}
 	case group.ExecutionStrategyOne:
 		for i := 0; i < n; i++ {
@@ -108,7 +131,7 @@ func contract(c groupCase) expectation {
 		}
 		if e.winner < 0 && n > 0 {
 			e.errIs = 0
-			e.wantErr = memberErr(0)
+			e.wantErr = c.memberErr(0)
 		}
 	case group.ExecutionStrategyFast:
 		first := -1
@@ -125,7 +148,7 @@ func contract(c groupCase) expectation {
 		if e.winner < 0 {
 			if n > 0 {
 				e.errIs = first
-				e.wantErr = memberErr(first)
+				e.wantErr = c.memberErr(first)
 				e.winner = first
 			} else {
 				e.wantErr = errors.New("some error")
@@ -138,7 +161,7 @@ func contract(c groupCase) expectation {
 			e.decidedAfter = 1
 			if !c.OK[i] {
 				e.errIs = i
-				e.wantErr = memberErr(i)
+				e.wantErr = c.memberErr(i)
 			}
 		} else {
 			e.wantErr = errors.New("some error")
@@ -198,7 +221,7 @@ func runGroupCase(c groupCase) error {
 			if c.OK[i] {
 				return memberMsg(i), nil
 			}
-			return nil, memberErr(i)
+			return nil, c.memberErr(i)
 		}
 	}
 
@@ -213,6 +236,10 @@ func runGroupCase(c groupCase) error {
 			}
 			done <- r
 		}()
+		if c.Via != "" {
+			r.err = traitCalls[c.Via](parent, s, members)
+			return
+		}
 		if !c.Direct {
 			r.results, r.err = group.Execute(parent, s, members)
 			return
@@ -308,11 +335,14 @@ func runGroupCase(c groupCase) error {
 	if (res.err != nil) != (exp.wantErr != nil) {
 		return fmt.Errorf("returned error %v, contract says error=%v (%v)", res.err, exp.wantErr != nil, exp.wantErr)
 	}
-	if exp.errIs >= 0 && res.err.Error() != memberErr(exp.errIs).Error() {
-		return fmt.Errorf("returned error %q, want the first observed error %q", res.err, memberErr(exp.errIs))
+	if exp.errIs >= 0 && res.err.Error() != c.memberErr(exp.errIs).Error() {
+		return fmt.Errorf("returned error %q, want the first observed error %q", res.err, c.memberErr(exp.errIs))
 	}
 	upTo := s <= group.ExecutionStrategyAny
-	if upTo {
+	if c.Via != "" {
+		// a trait group reduces the members' responses to one: how is the trait's business, the strategy's contract
+		// (error or not, which error, who gets cancelled, who is called) is checked below and above
+	} else if upTo {
 		if len(res.results) != n {
 			return fmt.Errorf("result slice has %d entries, want %d", len(res.results), n)
 		}
@@ -449,8 +479,17 @@ func TestGroupExhaustive(t *testing.T) {
 							if s == group.ExecutionStrategyOne && !isIdentity(perm) {
 								continue // order is forced for One
 							}
-							if !yield(groupCase{Strategy: int(s), OK: ok, Order: perm, Direct: direct}) {
-								return
+							for _, kind := range []int{0, 1, 3} {
+								if kind != 0 && bits == 1<<n-1 {
+									continue // nobody fails: the kind of error is irrelevant
+								}
+								kinds := make([]int, n)
+								for i := range kinds {
+									kinds[i] = kind
+								}
+								if !yield(groupCase{Strategy: int(s), OK: ok, Order: perm, Direct: direct, ErrKind: kinds}) {
+									return
+								}
 							}
 						}
 					}
@@ -466,7 +505,7 @@ func TestGroupExhaustive(t *testing.T) {
 		lib.Ev.Case(ntKey(c), func() any { return c.String() })
 		return err
 	})
-	lib.Ev.Exhaustive("members 0..4 x outcomes x completion orders x strategies x {Execute,direct}", done)
+	lib.Ev.Exhaustive("members 0..4 x outcomes x completion orders x strategies x {Execute,direct} x error kind {plain, wraps context.Canceled, status Canceled}", done)
 }
 
 func isIdentity(p []int) bool {
@@ -487,6 +526,7 @@ func TestGroupRandom(t *testing.T) {
 			OK:       rapid.SliceOfN(rapid.Bool(), n, n).Draw(t, "ok"),
 			CtxAware: rapid.SliceOfN(rapid.Bool(), n, n).Draw(t, "ctxAware"),
 			Direct:   rapid.Bool().Draw(t, "direct"),
+			ErrKind:  rapid.SliceOfN(rapid.IntRange(0, 4), n, n).Draw(t, "errKind"),
 		}
 		idx := make([]int, n)
 		for i := range idx {
